@@ -488,6 +488,77 @@ func ruleSequentialInnerGuard() check.Rule {
 	}
 }
 
+// OUTER-COMPLETE-WAITS-INNER: an operator that subscribes inner observables from the next slot of an outer source
+// without awaiting them there must not complete its output unconditionally when the outer source completes.
+func ruleOuterCompleteWaitsInner() check.Rule {
+	return check.Rule{
+		Name:        "OUTER-COMPLETE-WAITS-INNER",
+		Doc:         "where the next slot of an outer source subscribes inner observables that are not awaited inside that slot (concurrent flattening: MergeAll, MergeMap, ZipAll, ...), every Complete sent to the destination from the outer source's complete slot is conditional (a live-subscription counter or flag): an unconditional forward completes the output while inner observables are still running, and their values are lost",
+		NeedControl: true,
+		Run: func(c *check.Ctx) {
+			m := c.M
+			n := 0
+			for _, sc := range m.SCs {
+				armed := c.Armed(sc)
+				for _, outer := range sc.SubSites {
+					inner := 0
+					for _, s := range sc.SubSites {
+						if s != outer && s.Ctx == outer.Src && s.Slot == model.SlotNext && s.Src != nil && !s.Src.Awaited {
+							inner++
+						}
+					}
+					if inner == 0 || outer.Observer == nil {
+						continue
+					}
+					n++
+					key := outer.Key + "/complete-waits-for-inner"
+					if outer.Observer.Kind != model.AVObserver {
+						if armed {
+							c.Info(key, outer.Pos, "observer is not built in place")
+						}
+						continue
+					}
+					var uncond *model.EmitSite
+					for _, e := range sc.Emits {
+						if !e.ToDest || e.Kind != model.EmitComplete || e.Ctx != outer.Src || e.Slot != model.SlotComplete {
+							continue
+						}
+						if e.Forwarder {
+							uncond = e
+							break
+						}
+						// unconditional at every level: the function containing the emission, then each inlining call site
+						all := true
+						target := e.Node
+						fn := innermostFunc(m, e.Pkg, e.Node)
+						for depth := len(e.Stack); fn != nil; depth-- {
+							if body := funcBody(fn); body == nil || !mustPass(body, target) {
+								all = false
+								break
+							}
+							if depth <= 0 {
+								break
+							}
+							target = e.Stack[depth-1]
+							fn = innermostFunc(m, e.Pkg, target)
+						}
+						if all {
+							uncond = e
+							break
+						}
+					}
+					if uncond != nil {
+						c.Report(armed, key, uncond.Pos, "the output is completed unconditionally when the outer source completes, although %d inner subscribe site(s) created in its next slot are not awaited there: the output ends while inner observables are still running and their remaining values are dropped", inner)
+					} else if armed {
+						c.OK(key, outer.Pos, "completion of the outer source is forwarded only under a condition (or not at all)")
+					}
+				}
+			}
+			c.Inc("concurrent_flatteners", n)
+		},
+	}
+}
+
 var arityRe = regexp.MustCompile(`^ro\.(CombineLatestWith|ZipWith)([0-9]+)$`)
 
 // ARITY: the fixed-arity families agree with their own arity.
@@ -703,6 +774,22 @@ func verifControlErrSwallowed[T, S any](signal Observable[S]) func(Observable[T]
 	}
 }
 
+func verifControlEarlyOuterComplete[T any]() func(Observable[Observable[T]]) Observable[T] {
+	return func(sources Observable[Observable[T]]) Observable[T] {
+		return NewObservableWithContext(func(subscriberCtx context.Context, destination Observer[T]) Teardown {
+			subscriptions := NewSubscription(nil)
+			subscriptions.AddUnsubscribable(sources.SubscribeWithContext(subscriberCtx, NewObserverWithContext(
+				func(ctx context.Context, inner Observable[T]) {
+					subscriptions.AddUnsubscribable(inner.SubscribeWithContext(ctx, NewObserverWithContext(
+						destination.NextWithContext, destination.ErrorWithContext, func(ctx context.Context) {})))
+				},
+				destination.ErrorWithContext,
+				destination.CompleteWithContext)))
+			return subscriptions.Unsubscribe
+		})
+	}
+}
+
 func verifControlPrematureRelease[T, S any](other Observable[S]) func(Observable[T]) Observable[T] {
 	return func(source Observable[T]) Observable[T] {
 		return NewObservableWithContext(func(subscriberCtx context.Context, destination Observer[T]) Teardown {
@@ -725,7 +812,7 @@ func C05() *check.Property {
 		Title:    "Multi-source operators honour every arrival order of their inputs",
 		Patterns: CorePatterns,
 		Scope:    []string{ro},
-		Rules:    []check.Rule{ruleErrPropagation(), ruleArity(), ruleNoPrematureRelease(), ruleRaceLateLoser(), ruleComposition(), ruleSequentialInnerGuard()},
+		Rules:    []check.Rule{ruleErrPropagation(), ruleArity(), ruleNoPrematureRelease(), ruleRaceLateLoser(), ruleComposition(), ruleSequentialInnerGuard(), ruleOuterCompleteWaitsInner()},
 		Explanation: "Narrow structural claim. Arrival orders are run-time histories and are NOT decided. Two necessary conditions are: ERR-PROPAGATION — 'an error from any source ends the output at once': for every upstream subscribe site of every operator " +
 			"(multi-source ones included) the observer's error slot reaches an Error notification to the destination, or the operator's definition consumes the error (listed with reasons); partial observers that swallow errors are reported. NO-PREMATURE-RELEASE — 'nothing is lost, completion comes when the definition says': inside a notification slot of one source the other sources are unsubscribed only on paths that also terminate the output. ARITY — the fixed-arity " +
 			"CombineLatestWithK/ZipWithK families subscribe K+1 distinct sources, build K+1-tuples from K+1 distinct variables and (CombineLatest) use only counter constants consistent with K+1 sources.",
